@@ -29,6 +29,21 @@ def one(ctx, binp, name, cfgtext, keytab, **kw):
     of = ctx.path(name + "_res.json")
     p = ctx.run([binp, hf, of, "16", json.dumps(keytab)], timeout=3000)
     if p.returncode != 0 or not os.path.exists(of):
+        rp = common.real_code_panic(p.stderr)
+        if rp:
+            # a panic on a goroutine started by the trie itself cannot be recovered by the harness: the process dies, but
+            # the stack shows real code - the histories of this run are the replay
+            # pin the crash to one history: serial re-run, the harness announces each history before it starts it
+            import re
+            p2 = ctx.run([binp, hf, of, "16", json.dumps(keytab)], timeout=3000, env={"VERIF_SERIAL": "1"})
+            idx = re.findall(r"^HIST (\d+)$", p2.stderr or "", re.M)
+            hist = None
+            if p2.returncode != 0 and idx:
+                hist = json.loads(open(hf).read().splitlines()[int(idx[-1])])
+            ctx.violation("crash:" + rp[0], "%s in %s while replaying a TLC-generated history (%s): the trie crashes the process" % (rp[1], rp[0], name),
+                          dict(history=hist, stack=p.stderr[:1200]) if hist else dict(histories_file=os.path.basename(hf), stack=p.stderr[:1200]))
+            return dict(histories=0, roots_compared=0, distinct_maps=0, proofs_verified=0, tampered_proofs_rejected=0, other_root_rejected=0,
+                        violations=[], samples=[], crashed=True)
         raise Inconclusive("c10 harness failed: " + p.stderr[-1500:])
     res = json.load(open(of))
     if res.get("harness_errors"):
